@@ -276,6 +276,9 @@ fn(WS + ".app_send", params={"message": "none | msg(headers:short)"}, task="app"
        # C05: the application returned / raised
        ("C05.ws.none.handshake", "implies(message is None and not old(self.closed) and old(self.state) == ASGIWebsocketState.HANDSHAKE, "
         "n_emitted('sent') == 3 and isinstance(emitted('sent')[0], Response) and emitted('sent')[0].status_code == 500 and isinstance(emitted('sent')[1], EndBody) and isinstance(emitted('sent')[2], StreamClosed))", "C05"),
+       # ... and a denial response that was started and not finished is not finished for it
+       ("C05.ws.none.response-incomplete", "implies(message is None and not old(self.closed) and old(self.state) == ASGIWebsocketState.RESPONSE, "
+        "n_emitted('sent') == 1 and isinstance(emitted('sent')[0], StreamClosed))", "C05"),
        ("C05.ws.none.connected", "implies(message is None and not old(self.closed) and old(self.state) == ASGIWebsocketState.CONNECTED, "
         "last_is('sent', StreamClosed) and trace_all('ws', 'x', isinstance(x, CloseConnection) and x.code == CloseReason.INTERNAL_ERROR))", "C05"),
        # C11: the application's decision is rendered faithfully
